@@ -439,7 +439,7 @@ func runSimCaseWith(t *rapid.T, o simOpts, setup func(*sim.World)) *sim.World {
 	// others are ahead of it when its own commit (validation, proposal) is interrupted - e.g. by a sync to the tip
 	if it := cfg.Interrupt; !usedTemplate && it != nil && w.IsCorrect(it.Node) && rapid.IntRange(0, 2).Draw(t, "laggard?") == 0 {
 		usedTemplate = true
-		w.Apply(sim.Action{K: "hold", Hold: &sim.HoldRule{Types: 1 << sim.UC, To: 1 << uint(it.Node), From: 0xffff}})
+		w.Apply(sim.Action{K: "hold", Hold: &sim.HoldRule{Types: uint8(rapid.SampledFrom([]int{1 << sim.UC, 31, 31, 1<<sim.UP | 1<<sim.UC}).Draw(t, "lag-types")), To: 1 << uint(it.Node), From: 0xffff}})
 		w.Apply(sim.Action{K: "run", N: rapid.SampledFrom([]int{60, 200, 400}).Draw(t, "lag-run")})
 		w.Apply(sim.Action{K: "release"})
 		w.Apply(sim.Action{K: "run", N: rapid.SampledFrom([]int{20, 100}).Draw(t, "lag-run2")})
